@@ -14,7 +14,8 @@ BLOCKS = ["    s = \'\'\'a\n    b\n    c\'\'\'\n    y = s\n", '    s = """\nfirs
           "    (1,\n2)\n", "    a; b\n", "        deep\n", "    for i in j:\n        k\n\n        l\n    m\n", "    ls -l | grep x\n    echo $HOME\n", "    x = f!(a, b)\n",
           "    é = 'ü'\n", "    if a:\n      b\n    else:\n      c\n"]
 AFTERS = ["", "z = 1\n", "$(ls)\n", "with! q:\n    r\n", "f!(p q)\n", "def g():\n    pass\n"]
-SUBS = [("echo", " a  b "), ("bash", " -c x"), ("timeit", " ls -l"), ("echo", "x"), ("e", " $HOME @(1)"), ("echo", " a | b > c"), ("echo", " if for and"), ("x", " 1 +"), ("echo", " é  ü "), ("echo", "\ta\t")]
+SUB_AFTERS = ["", "", "; y = [1, 2]", "\nx = 1", "\nfor i in r:\n    g(i, 2)", "; z = y if y else None\n$(ls -l)"]
+SUBS = [("echo", ""), ("make", " "), ("echo", " a  b "), ("bash", " -c x"), ("timeit", " ls -l"), ("echo", "x"), ("e", " $HOME @(1)"), ("echo", " a | b > c"), ("echo", " if for and"), ("x", " 1 +"), ("echo", " é  ü "), ("echo", "\ta\t")]
 
 
 def test_macro_args():
@@ -96,14 +97,15 @@ def main():
 
     # ---- subprocess macros
     def build_sub(ex, case):
-        form, (cmd, rest), pos = case
+        form, (cmd, rest), pos, after = case
         sr = sym_at(ex, rest, pos, 1)
         closer = oracles2.FORMS[form][0]
-        src = SymStr.mk(form + cmd + "!") + sr + (closer + "\n") if isinstance(sr, SymStr) else form + cmd + "!" + sr + closer + "\n"
-        return src, lambda m: (form, cmd, ev(sr, m))
-    cs = [(f, s, p) for f in oracles2.FORMS for s in SUBS for p in [None] + list(range(len(s[1])))]
+        src = SymStr.mk(form + cmd + "!") + sr + (closer + after + "\n") if isinstance(sr, SymStr) else form + cmd + "!" + sr + closer + after + "\n"
+        return src, lambda m: (form, cmd, ev(sr, m), after)
+    cs = [(f, s, p, a) for f in oracles2.FORMS for s in SUBS for p in [None] + list(range(len(s[1]))) for a in SUB_AFTERS]
     if chk.quick:
-        cs = chk.rng.sample(cs, min(len(cs), 120))
+        k0 = [c for c in cs if c[2] is None]
+        cs = k0 + chk.rng.sample([c for c in cs if c[2] is not None], 120)
     chk.run("subproc-macro k<=1", generic(cs, build_sub, "c07_sub"), f"{len(cs)} (form, command, rest, position) cases", wall=120 if chk.quick else 1200, vacuity=("ok",))
 
     # ---- with macros
